@@ -166,10 +166,16 @@ func SmallBadgerOptions(dir string, inMemory bool) badger.Options {
 	if inMemory {
 		opts = opts.WithInMemory(true).WithDir("").WithValueDir("")
 	}
-	return opts.WithMemTableSize(4 << 20).WithValueLogFileSize(8 << 20).WithNumMemtables(2).
+	opts = opts.WithMemTableSize(4 << 20).WithValueLogFileSize(8 << 20).WithNumMemtables(2).
 		WithNumLevelZeroTables(2).WithNumLevelZeroTablesStall(4).WithNumCompactors(2).
-		WithBlockCacheSize(1 << 20).WithIndexCacheSize(1 << 20).WithBaseTableSize(1 << 20).
-		WithValueThreshold(1 << 10)
+		WithBlockCacheSize(1 << 20).WithIndexCacheSize(1 << 20).WithBaseTableSize(1 << 20)
+	if inMemory {
+		// in memory badger rejects values above the threshold (there is no value
+		// log); the threshold must stay below 15% of the memtable size
+		return opts.WithValueThreshold(512 << 10)
+	}
+	// on disk, larger values go to the value log
+	return opts.WithValueThreshold(1 << 10)
 }
 
 func (b *BadgerBackend) Open() (store.Store, error) {
